@@ -463,6 +463,7 @@ class Interp(object):
 
     # ------------------------------------------------------------ branching
     def reset_path(self):
+        CURRENT[0] = self
         self.pos = 0
         self.pc = []
         self.log = []
@@ -1558,6 +1559,16 @@ class Interp(object):
         return self.call(f, list(args), kwargs)
 
 
+SAFETY_LOG = [None]      # when a list: every partial operation executed is recorded (kind, operand terms, path condition)
+CURRENT = [None]
+
+
+def log_partial(kind, *operands):
+    if SAFETY_LOG[0] is not None:
+        it = CURRENT[0]
+        SAFETY_LOG[0].append((kind, tuple(tm.lift(o) for o in operands), tuple(it.pc) if it is not None else ()))
+
+
 def scalar_binop(k, a, b):
     for v in (a, b):
         if not isinstance(v, (int, Q, T, bool, np.integer)):
@@ -1579,12 +1590,19 @@ def scalar_binop(k, a, b):
         return a * b
     if k == "Div":
         if not sym and b == 0:
+            if SAFETY_LOG[0] is not None:
+                log_partial("div", b)
+                return tm.var("inf")
             raise PyRaise(mk_exc("ZeroDivisionError", "division by zero"))
         if sym:
+            if isinstance(b, T):
+                log_partial("div", b)
             return to_term(a) / to_term(b)
         return Q(a) / Q(b)
     if k == "Pow":
         if sym:
+            if isinstance(a, T) and not (isinstance(b, int) and b >= 0) and not (isinstance(b, Q) and b.denominator == 1 and b >= 0):
+                log_partial("pow", a, b)
             return to_term(a) ** to_term(b)
         if isinstance(b, int) or (isinstance(b, Q) and b.denominator == 1):
             bi = int(b)
